@@ -62,11 +62,11 @@ For every environment, every Rust type `t` of the grammar and every value `v` of
 reach of the depth budget `k` (`wt`: primitives, `u128` / `i128` within their range, `Nat` / `Int`, text, principals,
 `Reserved`, byte buffers, options, vectors and sets — through the bulk reader, the big-number shortcut or element by
 element —, arrays of their own length, bounded vectors within their limits, tuples, newtype structs, maps — with
-their text-key and big-number shortcuts —, derived structs and enums, named recursive types): from the bytes the
+their text-key and big-number shortcuts —, derived structs and enums, named recursive types, function and service
+references — whose subtype check of the type against itself is the checker's first test and leaves the memo as it
+was): from the bytes the
 value writer produces for `v`, followed by anything, with nothing metered, at wire type = expected type, the mirror
-returns exactly `v` and leaves exactly what followed.  Not covered by `wt` (and so by this theorem): function and
-service references (their read goes through the subtype checker, whose acceptance of a type against itself within its
-budget is not a theorem here). -/
+returns exactly `v` and leaves exactly what followed. -/
 theorem native_decoding_inverts_encoding (mk : String → NR) (env : Env) (tl : Nat) (renv : REnv) (k : Nat) (t : RTy)
     (e : Ty) (v : Val) (fs : Nat) (b r : Bytes) (st : St) (hwt : wt env renv k t e v = true) (hs : serVal fs v = .ok b)
     (hu : Unmetered st) (hin : st.input = b ++ r) :
